@@ -97,7 +97,7 @@ func (c *c06) Assumptions() []string {
 }
 
 func (c *c06) ProbeNames() []string {
-	return []string{"overwrite_with_longer_output", "overwrite_with_shorter_output", "new_with_stale_vored_longer_than_output", "replace_with_zero_matches_written", "file_listed_twice", "empty_file_replaced", "two_replace_commands_one_source", "file_larger_than_window_replaced", "op_after_earlier_write_op", "nothing_mode_replace", "find_only_program_in_write_mode", "vored_file_searched"}
+	return []string{"overwrite_with_longer_output", "overwrite_with_shorter_output", "new_with_stale_vored_longer_than_output", "replace_with_zero_matches_written", "file_listed_twice", "empty_file_replaced", "two_replace_commands_one_source", "file_larger_than_window_replaced", "op_after_earlier_write_op", "nothing_mode_replace", "find_only_program_in_write_mode", "vored_file_searched", "file_64k_or_more"}
 }
 
 func (c *c06) SweepPrefix(string, uint64) []uint64 { return nil }
@@ -225,7 +225,12 @@ func (c *c06) Run(ctx *RunCtx) *RunResult {
 		case 0:
 			content = nil // empty
 		case 1:
-			content = c06bigContent([]int{4095, 4096, 4097, 8193}[t.Draw(4)], uint64(t.Draw(1000)))
+			sizes := []int{4095, 4096, 4097, 8193}
+			if t.Draw(40) == 1 {
+				sizes = []int{65536, 65537, 70001} // thousands of matches, far above the window
+				ctx.Count("file_64k_or_more", 1)
+			}
+			content = c06bigContent(sizes[t.Draw(len(sizes))], uint64(t.Draw(1000)))
 		default:
 			content = c06content(t, t.Range(1, 160))
 		}
@@ -320,7 +325,7 @@ func (c *c06) Run(ctx *RunCtx) *RunResult {
 		for j := range prog.Cmds {
 			for _, f := range files {
 				content := model[f]
-				simrt.OpStart(3000000)
+				simrt.OpStart(3000000 + 400*uint64(len(content)))
 				var ms engine.Matches
 				func() {
 					defer func() {
@@ -396,7 +401,7 @@ func (c *c06) Run(ctx *RunCtx) *RunResult {
 			abs[i] = filepath.Join(root, f)
 		}
 		simrt.ClearIO()
-		simrt.OpStart(20000000)
+		simrt.OpStart(200000000)
 		out, ms := doRunFiles(prog.whole, abs, mode, root+"/")
 		simrt.OpEnd()
 		events := simrt.IOEvents()
